@@ -28,6 +28,7 @@ CONSTANTS
   Init0,     \* [Inputs -> value]   the workbook as written
   Pool,      \* values set_value may write
   Settable,  \* inputs set_value is applied to (a subset of Inputs)
+  Recalc,    \* BOOLEAN: the recalculate() action is part of the explored behaviours
   Lists,     \* address lists evaluate() may be called with (sequences of nodes)
   Src        \* "NoData": workbook without stored results
              \* "Stored": xlsx with stored formula results
@@ -233,7 +234,18 @@ SetValue(a, v) ==
   /\ act' = [op |-> "set_value", n |-> a, v |-> v]
   /\ UNCHANGED <<built, edges>>
 
+(* recalculate(): every range and formula cell of the cell map is cleared, *)
+(* then every cell of the cell map is evaluated                            *)
+Recalculate ==
+  /\ Recalc
+  /\ LET c0 == [x \in Nodes |-> IF x \in built /\ x \notin Inputs THEN NoneV ELSE cache[x]]
+     IN  cache' = Fill(c0, built)
+  /\ ret' = NoneV
+  /\ act' = [op |-> "recalculate"]
+  /\ UNCHANGED <<inp, built, edges, changed>>
+
 Next == \/ \E n \in Nodes : Evaluate(n)
+        \/ Recalculate
         \/ \E seq \in Lists : EvaluateList(seq)
         \/ \E a \in Settable, v \in Pool : SetValue(a, v)
 
